@@ -1,6 +1,6 @@
 --------------------------- MODULE MC_ExcelReader ---------------------------
 (* Bounded configurations of ExcelReader.tla.                                 *)
-(* Pool: 24 header instances covering every documented class (two padded      *)
+(* Pool: 30 header instances covering every documented class (two padded      *)
 (* headers, element./elements., repeatable vib_wavenumber / rot_temperature / *)
 (* list.sites, indexed list.w.0/.1 out of index order, dict fields, NASA      *)
 (* indices 0, 6 and 3, statmech_model and the five <mode>_model columns, and  *)
@@ -38,7 +38,14 @@ Pool == << E(H_name, "str", FALSE),                  \*  1
            E(T_rot_model, "rot", FALSE),             \* 21
            E(T_elec_model, "elec", FALSE),           \* 22
            E(T_nucl_model, "nucl", FALSE),           \* 23
-           E(H_A, "big", FALSE) >>                   \* 24: values between 2^63 and 2^64
+           E(H_A, "big", FALSE),                     \* 24: values between 2^63 and 2^64
+           \* position indices and keys of one, two digits (0 and 1 are entries 11, 12)
+           E(H_list_w_9, "num", FALSE),              \* 25
+           E(H_list_w_10, "mix", FALSE),             \* 26
+           E(H_list_w_11, "num", FALSE),             \* 27
+           E(H_list_w_29, "mix", FALSE),             \* 28
+           E(H_dict_misc_10, "num", FALSE),          \* 29: key "10"
+           E(H_dict_misc_a11, "mix", FALSE) >>       \* 30: key "a11"
 
 Pick(s, k) == s[(k % Len(s)) + 1]
 NumVal(r, c) == LET n == 100 * r + c IN
@@ -85,6 +92,9 @@ GroupsOf(lays, rowCounts) == {G(l, nr, "all") : l \in lays, nr \in rowCounts}
 Wide == { <<1, 18, 20, 8, 8>>, <<8, 4, 8, 5, 8>>, <<15, 17, 16, 2, 3>>, <<10, 13, 10, 14, 10>>,
           <<19, 21, 22, 23, 18>>, <<7, 12, 11, 9, 9>>, <<3, 18, 1, 6, 23>>, <<18, 19, 20, 3, 22>>,
           <<7, 4, 6, 1, 8>>, <<4, 7, 6, 5, 1>> }       \* formula with element.X right / left of it
+IndexMix == {11, 25, 26, 27, 28}       \* list.w.0 / .9 / .10 / .11 / .29
+DictMix == {13, 29, 30}                \* dict.misc.a / .10 / .a11
+Rep(k, n) == [j \in 1..n |-> k]        \* n repetitions of one header: pandas appends .1 ... .(n-1)
 FormulaMix == {7, 4, 6}                \* formula, element.O (overrides O), element.Pt (adds Pt)
 Core == {18, 20, 3, 8, 10, 4}          \* the columns that interact most
 Core2 == Core \cup {5, 7, 13, 14, 19, 23}
@@ -96,6 +106,11 @@ QuickGroups(x) == GroupsOf(Layouts(1..24, 1, 2), {1, 2})
                   \cup GroupsOf(Layouts(Core, 2, 2), {3})
                   \cup {G(l, 3, "masks") : l \in Wide}
                   \cup GroupsOf(Layouts(FormulaMix, 2, 3), {2}) \cup GroupsOf(Layouts(FormulaMix, 2, 2), {3})
+                  \cup GroupsOf(Layouts(IndexMix, 2, 2), {2}) \cup GroupsOf(Layouts(IndexMix, 3, 3), {1})
+                  \cup GroupsOf(Layouts(DictMix, 2, 3), {1}) \cup GroupsOf(Layouts(DictMix, 2, 2), {2})
+                  \cup {G(Rep(k, 12), 2, "masks") : k \in {8, 9, 10}}
+                  \cup {G(Rep(k, 30), 1, "masks") : k \in {8, 10}}
+                  \cup {G(<<1>> \o Rep(10, 11) \o <<8>> \o Rep(10, 2) \o Rep(8, 11), 2, "masks")}
 ThoroughGroups(x) == QuickGroups(x) \cup GroupsOf(Layouts(Core2, 3, 3), {2})
                      \cup GroupsOf(Layouts(Core, 4, 4), {2})
 \* the sheets the thorough tier replays into the code (a subset of ThoroughGroups)
